@@ -70,6 +70,25 @@ def rings(rng, n):
     return out
 
 
+def mutual_ttus(rng, n):
+    """relations of one type that are each, WITHOUT any operator, a tuple-to-userset of another one through the same tupleset,
+    which admits the type itself: lines in both directions between the same two relation nodes, carrying the same label"""
+    out = []
+    for _ in range(n):
+        k = rng.choice([2, 2, 3])
+        names = rng.sample(["a", "b", "c", "viewer", "editor"], k)
+        t = rng.choice(["folder", "doc"])
+        rl = [[S("parent"), [1, 1]]]
+        ml = [[S("parent"), [[[S(t), [0], []]] + ([[S("user"), [0], []]] if rng.random() < 0.3 else []), [], []]]]
+        for i, r in enumerate(names):
+            rl.append([S(r), [3, S("parent"), S(names[(i + 1) % k])]])
+            ml.append([S(r), [[], [], []]])
+        order = list(zip(rl, ml))
+        rng.shuffle(order)
+        out.append([S("1.1"), [[S("user"), [], []], [S(t), [x[0] for x in order], [[[x[1] for x in order], [], []]]]], []])
+    return out
+
+
 def graph_acyclic(g):
     adj = {}
     for (f, t, _, _) in g[2]:
@@ -86,7 +105,7 @@ def run(ctx):
                        "edge conditions of the plain graph are not observable through its public API and are not compared"]
     n = 300 if ctx.tier == "quick" else 6000
     rep = 6 if ctx.tier == "quick" else 40
-    models = [m for m in graphprops.gen_models(ctx, n) + rings(ctx.rng, max(40, n // 6)) if not gs.degenerate(m)]
+    models = [m for m in graphprops.gen_models(ctx, n) + rings(ctx.rng, max(40, n // 6)) + mutual_ttus(ctx.rng, max(12, n // 20)) if not gs.degenerate(m)]
     labels = [labels_of(m) for m in models]
     impl = ctx.impl([{"op": "pgraph", "m": m, "labels": [S(x) for x in ls], "repeat": rep} for m, ls in zip(models, labels)])
     try:
